@@ -230,6 +230,16 @@ class Kinds:
     def live_set(self, t, f):
         """LIVE(S): where(ACC[S] <pred>)[0] and friends -> (acc, state, pred cmp, row) or None"""
         pred = None
+        # the same positions as a list / tuple / int array
+        while True:
+            if t[0] == 'call' and t[1][0] == 'attr' and t[1][2] in ('tolist', 'copy') and not t[2]:
+                t = t[1][1]
+            elif t[0] == 'call' and t[1][0] == 'attr' and t[1][2] == 'astype' and t[2] == (('g', 'builtins.int'),):
+                t = t[1][1]
+            elif is_call(t, 'builtins.list', 'builtins.tuple') and len(t[2]) == 1 and not t[3] and t[2][0][0] != 'comp':
+                t = t[2][0]
+            else:
+                break
         if t[0] == 'sub' and t[2] == ('c', 0) and is_call(t[1], *WHERE_LIKE) and len(t[1][2]) == 1:
             pred = t[1][2][0]
         elif t[0] == 'sub' and t[2] == ('c', 0) and t[1][0] == 'call' and t[1][1][0] == 'attr' and t[1][1][2] == 'nonzero' \
